@@ -1,7 +1,159 @@
 import Cherab.Drv.Proto
-open Cherab.Drv
+import Cherab.Model.LineShape
+open Cherab.Drv Cherab.LineShape
 
-/-- C02 driver: not yet implemented (echo) -/
+/-! C02 driver: the definitions of `Cherab.Model.LineShape` at `Float`.
+
+`erfF` is the driver's own error function (libm's `erf` is not reachable from Lean): positive-term series
+`erf x = 2/√π · e^{−x²} · Σ 2ⁿ x^{2n+1}/(2n+1)!!` below 2.5, Laplace continued fraction for `erfc` above.
+The harness compares it with `math.erf` on 10⁴ points on every run. -/
+
+def twoOverSqrtPi : Float := 1.1283791670955126
+def oneOverSqrtPi : Float := 0.5641895835477563
+
+def erfSeries (x : Float) : Float := Id.run do
+  let x2 := 2.0 * x * x
+  let mut term := x
+  let mut sum := x
+  for n in [0:200] do
+    term := term * x2 / (2.0 * n.toFloat + 3.0)
+    sum := sum + term
+    if term < 1e-18 * sum then break
+  return twoOverSqrtPi * Float.exp (-(x * x)) * sum
+
+def erfcCF (x : Float) : Float := Id.run do
+  let mut t := x
+  for i in [0:120] do
+    let k := (120 - i).toFloat
+    t := x + (0.5 * k) / t
+  return oneOverSqrtPi * Float.exp (-(x * x)) / t
+
+def erfF (x : Float) : Float :=
+  if x.isNaN then x else
+  let ax := x.abs
+  let v := if ax < 2.5 then erfSeries ax else if ax < 6.0 then 1.0 - erfcCF ax else 1.0
+  if x < 0.0 then -v else v
+
+def floorI (x : Float) : Int := (Float.floor x).toInt64.toInt
+def ceilI (x : Float) : Int := (Float.ceil x).toInt64.toInt
+
+def fns : Fns Float :=
+  { sqrt := Float.sqrt, pow := Float.pow, exp := Float.exp, log := Float.log, erf := erfF,
+    floorI := floorI, ceilI := ceilI, sqrt2 := 1.41421356237309504880 }
+
+def K : Consts Float := consts
+
+structure St where
+  cutG : Float := 10.0
+  cutL : Float := 50.0
+  normC : Float := 1.0
+  rtol : Float := 1e-5
+  rules : List (List (Float × Float)) := []
+
+/-- the integrator handed to `add_lorentzian_line`: `GaussianQuadrature` over `StarkFunction` -/
+def starkI (st : St) : Float → Float → Float → Float → Float :=
+  fun wl fwhm a b => gaussQuad (starkFunction fns st.normC wl fwhm) st.rtol st.rules a b
+
+def parseRules : Nat → List String → List (List (Float × Float))
+  | 0, _ => []
+  | k + 1, ts =>
+    match ts with
+    | [] => []
+    | n :: rest =>
+      let n := pN n
+      let roots := (rest.take n).map pF
+      let ws := ((rest.drop n).take n).map pF
+      (roots.zip ws) :: parseRules k (rest.drop (2 * n))
+
+def parseSpec (ts : List String) : Spec Float :=
+  match ts with
+  | mn :: mx :: dl :: bins :: rest =>
+    { mn := pF mn, mx := pF mx, dl := pF dl, bins := pN bins, samples := (rest.take (pN bins)).map pF }
+  | _ => { mn := 0, mx := 0, dl := 1, bins := 0, samples := [] }
+
+def parsePol (s : String) : Pol := if s == "pi" then Pol.pi else if s == "sigma" then Pol.sigma else Pol.no
+
+def parseEnv (f : List Float) : Env Float :=
+  match f with
+  | [wl, aw, ts, vx, vy, vz, dx, dy, dz, bx, b_y, bz, ne, te] =>
+    { wl := wl, aw := aw, ts := ts, vel := (vx, vy, vz), dir := (dx, dy, dz), b := (bx, b_y, bz), ne := ne, te := te }
+  | _ => { wl := 0, aw := 1, ts := 0, vel := (0, 0, 0), dir := (1, 0, 0), b := (0, 0, 0), ne := 0, te := 0 }
+
+def parsePairs : Nat → List Float → List (Float × Float)
+  | 0, _ => []
+  | k + 1, a :: b :: t => (a, b) :: parsePairs k t
+  | _, _ => []
+
+/-- `n (wl ratio)*n` → pairs and the remaining tokens -/
+def takeTable (ts : List String) : List (Float × Float) × List String :=
+  match ts with
+  | [] => ([], [])
+  | n :: rest =>
+    let n := pN n
+    (parsePairs n ((rest.take (2 * n)).map pF), rest.drop (2 * n))
+
+def run (st : St) (cs : List (Comp Float)) (sp : Spec Float) : String :=
+  fFs (addComps fns (starkI st) st.cutG st.cutL cs sp).samples
+
+def polyEval (cs : List Float) (x : Float) : Float := cs.foldr (fun c acc => c + x * acc) 0.0
+
+def step (st : St) (ts : List String) : St × String :=
+  match ts with
+  | ["cfg", cg, cl, nc, rt] => ({ st with cutG := pF cg, cutL := pF cl, normC := pF nc, rtol := pF rt }, "ok")
+  | "rules" :: k :: rest => ({ st with rules := parseRules (pN k) rest }, "ok")
+  | ["erf", x] => (st, fF (erfF (pF x)))
+  | ["consts"] => (st, fFs [K.amu, K.echarge, K.c, K.hc, K.muB, (starkSplittingFactor : Float), sigma2fwhm fns])
+  | ["coef"] => (st, fFs ((fwhmPolyGauss : List Float) ++ fwhmPolyLorentz ++ weightPoly))
+  | "gl" :: r :: wl :: sg :: rest =>
+      (st, fFs (addGaussianLine fns st.cutG (pF r) (pF wl) (pF sg) (parseSpec rest)).samples)
+  | "ll" :: r :: wl :: fw :: rest =>
+      (st, fFs (addLorentzianLine fns (starkI st) st.cutL (pF r) (pF wl) (pF fw) (parseSpec rest)).samples)
+  | ["range", cut, wl, w, mn, mx, dl, bins] =>
+      let sp : Spec Float := { mn := pF mn, mx := pF mx, dl := pF dl, bins := pN bins, samples := [] }
+      match lineRange fns (pF cut) (pF wl) (pF w) sp with
+      | none => (st, "none")
+      | some (a, b) => (st, s!"{a} {b}")
+  | "gq" :: "poly" :: a :: b :: cs => (st, fF (gaussQuad (polyEval (cs.map pF)) st.rtol st.rules (pF a) (pF b)))
+  | ["gq", "stark", a, b, x0, fw] => (st, fF (starkI st (pF x0) (pF fw) (pF a) (pF b)))
+  | ["gq", "exp", a, b, k] => (st, fF (gaussQuad (fun x => Float.exp (pF k * x)) st.rtol st.rules (pF a) (pF b)))
+  | ["gq", "runge", a, b, k] =>
+      (st, fF (gaussQuad (fun x => 1.0 / (1.0 + pF k * x * x)) st.rtol st.rules (pF a) (pF b)))
+  | ["sf", x0, fw, x] => (st, fF (starkFunction fns st.normC (pF x0) (pF fw) (pF x)))
+  | "m" :: name :: pol :: r :: rest =>
+      let e := parseEnv ((rest.take 14).map pF)
+      let rest := rest.drop 14
+      let pol := parsePol pol
+      let r := pF r
+      match name with
+      | "gauss" => (st, run st (gaussianLineComps fns K r e) (parseSpec rest))
+      | "zt" => (st, run st (zeemanTripletComps fns K pol r e) (parseSpec rest))
+      | "mult" =>
+          let (tab, rest) := takeTable rest
+          (st, run st (multipletComps fns K tab r e) (parseSpec rest))
+      | "pz" =>
+          match rest with
+          | al :: be :: ga :: rest => (st, run st (paramZeemanComps fns K (pF al) (pF be) (pF ga) pol r e) (parseSpec rest))
+          | _ => (st, "bad-op")
+      | "zm" =>
+          let (tpi, rest) := takeTable rest
+          let (tsp, rest) := takeTable rest
+          let (tsm, rest) := takeTable rest
+          (st, run st (zeemanMultipletComps fns K tpi tsp tsm pol r e) (parseSpec rest))
+      | "stark" =>
+          match rest with
+          | c :: a :: b :: rest => (st, run st (starkComps fns K (pF c) (pF a) (pF b) pol r e) (parseSpec rest))
+          | _ => (st, "bad-op")
+      | _ => (st, "bad-op")
+  | "mse" :: r :: rest =>
+      match (rest.take 19).map pF with
+      | [wl, te, ne, en, bx, b_y, bz, px, py, pz, ox, oy, oz, mass, temp, s2p, s1s0, p2p3, p4p3] =>
+          let e : BeamEnv Float :=
+            { wl := wl, te := te, ne := ne, energy := en, b := (bx, b_y, bz), beamDir := (px, py, pz),
+              obsDir := (ox, oy, oz), mass := mass, temp := temp, s2p := s2p, s1s0 := s1s0, p2p3 := p2p3, p4p3 := p4p3 }
+          (st, run st (mseComps fns K (pF r) e) (parseSpec (rest.drop 19)))
+      | _ => (st, "bad-op")
+  | _ => (st, "bad-op")
+
 def main : IO UInt32 := do
-  loop (stateless fun ts => " ".intercalate ts) (← IO.getStdin) (← IO.getStdout) ()
+  loop step (← IO.getStdin) (← IO.getStdout) ({} : St)
   return 0
